@@ -148,6 +148,38 @@ def json_text(x):
     import json
 
     return json.dumps(x, sort_keys=True)
+
+
+class TZ(Scalar):
+    """a scalar type whose instances can be FALSY although present (like Decimal("0"), timedelta(0), an empty
+    collection-like value): truthiness and length follow the raw value"""
+
+    def __bool__(self):
+        return bool(self.raw)
+
+
+def parse_z(raw):
+    return _parse("parse_z", TZ, raw)
+
+
+def serialize_z(v):
+    return _serialize("serialize_z", v)
+
+
+def _canon_n(v):
+    if isinstance(v, (int, float)) and not isinstance(v, bool):
+        return {"$leaf": v}
+    if isinstance(v, (list, tuple)):
+        return [_canon_n(x) for x in v]
+    return canon(v)
+
+
+def serialize_n(v):
+    """serialize of a scalar whose Python values are plain numbers (JSON-able as they are; 0 is a present value)"""
+    LOG.append(["serialize", "serialize_n", _canon_n(v)])
+    if isinstance(v, (int, float)) and not isinstance(v, bool):
+        return {"$ser": "serialize_n", "v": v}
+    return {"$ser": "serialize_n", "other": _kind(v)}
 '''
 
 # configuration families (DESIGN.md C07 quantifier): how a scalar is configured and which Python
@@ -174,6 +206,22 @@ FAMILIES: Dict[str, Dict[str, Any]] = {
     "G": {"cfg": None, "py": "any", "parse": None, "serialize": None},
 }
 
+# families that are only used when a caller of gen_case names them in `families=` (the default draw is over FAMILIES)
+EXTRA_FAMILIES: Dict[str, Dict[str, Any]] = {
+    # type + parse + serialize like A, but the Python values are falsy whenever the raw value is ("", 0, [], {}):
+    # a present value that `if value:` would take for absent
+    "H": {"cfg": {"type": ".custom_scalars.TZ", "parse": ".custom_scalars.parse_z", "serialize": ".custom_scalars.serialize_z"},
+          "py": "cls", "cls": "TZ", "parse": "parse_z", "serialize": "serialize_z",
+          "raws": ["", 0, [], {}, "r1", 7, 0.0, False, ["l", 1], {"a": 1}]},
+    # serialize only (absolute dotted path), falsy values
+    "I": {"cfg": {"type": "gen_pkg.custom_scalars.TZ", "serialize": "gen_pkg.custom_scalars.serialize_z"},
+          "py": "cls", "cls": "TZ", "parse": None, "serialize": "serialize_z", "results": False,
+          "raws": ["", 0, [], "r2", 5, {}]},
+    # builtin type + serialize: the Python values are plain numbers, JSON-able even when serialize is skipped; 0 is falsy
+    "J": {"cfg": {"type": "int", "serialize": ".custom_scalars.serialize_n"},
+          "py": "int", "parse": None, "serialize": "serialize_n", "results": False, "raws": [0, 5, 0, -3, 1000]},
+}
+
 BUILTIN_SCALARS = ["String", "Int", "Float", "Boolean", "ID"]
 
 
@@ -185,7 +233,9 @@ def result_scalars(case: Dict[str, Any]) -> List[str]:
 def family_of(case: Dict[str, Any], scalar: str) -> Dict[str, Any]:
     """the configuration family of a scalar of a case: a key of FAMILIES or an inline family dict"""
     f = case["scalars"][scalar]
-    return FAMILIES[f] if isinstance(f, str) else f
+    if isinstance(f, str):
+        return FAMILIES[f] if f in FAMILIES else EXTRA_FAMILIES[f]
+    return f
 
 # --------------------------------------------------------------------------------------------
 # types
@@ -391,19 +441,27 @@ def finish_case(case: Dict[str, Any]) -> None:
         if case.get("want_results", True):
             scal = " ".join(f"{s.lower()}Plain {s.lower()}Req {s.lower()}List {s.lower()}Deep" for s in result_scalars(case))
             sel = f"ok {scal} child {{ ok {scal} }} kids {{ {scal or 'ok'} }}"
+            if case.get("fragments") and scal:
+                # opt-in: the scalar fields of `child` come through a fragment spread (a class of fragments.py as base)
+                sel = f"ok {scal} child {{ ...RScalars ok }} kids {{ {scal} }}"
         docs.append(f"{op['kind']} {op['name']}" + (f"({vars_})" if vars_ else "") + " { " + op["field"] + (f"({call})" if call else "")
                     + " { " + sel + " } }")
     lines.append("type Query { " + " ".join(roots["query"]) + " }")
     if roots["mutation"]:
         lines.append("type Mutation { " + " ".join(roots["mutation"]) + " }")
     case["sdl"] = "\n".join(lines) + "\n"
+    if case.get("fragments") and case.get("want_results", True) and result_scalars(case):
+        docs.append("fragment RScalars on R { " + " ".join(f"{s.lower()}Plain {s.lower()}Req {s.lower()}List {s.lower()}Deep"
+                                                           for s in result_scalars(case)) + " }")
     case["queries"] = "\n".join(docs) + "\n"
     cfg: Dict[str, Any] = {"convert_to_snake_case": case["snake"], "async_client": case["async"]}
     sc = {s: dict(family_of(case, s)["cfg"]) for s in case["scalars"] if family_of(case, s)["cfg"] is not None}
     if sc:
         cfg["scalars"] = sc
-    if any(family_of(case, s)["py"] == "cls" or family_of(case, s)["parse"] for s in case["scalars"]):
+    if any(family_of(case, s)["py"] == "cls" or family_of(case, s)["parse"] or family_of(case, s)["serialize"] for s in case["scalars"]):
         cfg["files_to_include"] = [SCALAR_MODULE + ".py"]
+    # additional generator settings of a case (include_all_inputs, include_all_enums, ...): absent = the defaults
+    cfg.update(case.get("extra_config") or {})
     case["config"] = cfg
 
 
@@ -616,6 +674,26 @@ def method_ir(fn: Any) -> Dict[str, Any]:
     return {"name": fn.name, "args": out_args, "dict": d_items, "locals": locals_, "kind": kind, "opName": kws["operation_name"].value}
 
 
+def loose_method_ir(fn: Any) -> Optional[Dict[str, Any]]:
+    """What is needed to CALL a generated client method whose text `method_ir` refused (CanonError): its name, kind,
+    operation name and which parameter each variable is taken from.  Not an IR the models are compared with (the
+    caller reports the CanonError as a mismatch); it only keeps the oracle able to observe the method."""
+    params = [a.arg for a in fn.args.args[1:]]
+    op_name = next((kw.value.value for n in ast.walk(fn) if isinstance(n, ast.Call) for kw in n.keywords
+                    if kw.arg == "operation_name" and isinstance(kw.value, ast.Constant)), None)
+    dict_node = next((st.value for st in fn.body if isinstance(st, ast.AnnAssign) and isinstance(st.value, ast.Dict)), None)
+    if op_name is None or dict_node is None:
+        return None
+    d_items = []
+    for k, v in zip(dict_node.keys, dict_node.values):
+        if not (isinstance(k, ast.Constant) and isinstance(k.value, str)):
+            return None
+        used = [n.id for n in ast.walk(v) if isinstance(n, ast.Name) and n.id in params]
+        d_items.append([k.value, {"k": "loose", "py": used[0] if used else k.value}])
+    return {"name": fn.name, "args": [], "dict": d_items, "locals": {}, "kind": "async" if isinstance(fn, ast.AsyncFunctionDef) else "sync",
+            "opName": op_name, "loose": True}
+
+
 def class_ir(cls: Any) -> List[Dict[str, Any]]:
     """ClassDef of a generated pydantic model -> [{"py", "alias", "ann", "default": required|none|value}]"""
     out = []
@@ -643,6 +721,12 @@ def class_ir(cls: Any) -> List[Dict[str, Any]]:
 def module_classes(src: str) -> Dict[str, List[Dict[str, Any]]]:
     tree = ast.parse(src)
     return {c.name: class_ir(c) for c in tree.body if isinstance(c, ast.ClassDef)}
+
+
+def module_bases(src: str) -> Dict[str, List[str]]:
+    """class name -> names of its base classes"""
+    tree = ast.parse(src)
+    return {c.name: [b.id for b in c.bases if isinstance(b, ast.Name)] for c in tree.body if isinstance(c, ast.ClassDef)}
 
 
 def module_imports(src: str) -> List[Dict[str, Any]]:
@@ -687,7 +771,9 @@ def gen_value(rng: random.Random, case: Dict[str, Any], gt: List[Any], *, top: b
         return {"k": "enum", "cls": name, "v": rng.choice(case["enums"][name])}
     if name in case["scalars"]:
         fam = family_of(case, name)
-        if fam["py"] == "cls":
+        if fam.get("raws"):
+            raw = rng.choice(fam["raws"])
+        elif fam["py"] == "cls":
             raw = rng.choice(["r1", "r2", 7, ["l", 1], {"a": 1}, "", 0])
         elif fam["py"] == "str":
             raw = rng.choice(["s1", "s2", ""])
